@@ -22,6 +22,7 @@ A_CONST = "callee contract: util::is_jsx_attr_value_constant replaced by an orac
 ISCONST = ["isconst_k0_w0", "isconst_k1_w0", "isconst_k2_w0", "isconst_k3_w0", "isconst_k4_w0", "isconst_k5_w0", "isconst_k6_w0",
            "isconst_k0_w1", "isconst_k1_w1", "isconst_k3_w1", "isconst_k5_w1", "isconst_k0_w2", "isconst_k1_w2", "isconst_k4_w2",
            "isconst_k0_w3", "isconst_k1_w3", "isconst_k2_w3", "isconst_k6_w3", "isconst_k3_w4", "isconst_k3_w5", "isconst_value_kinds"]
+ISCONST_Q = ["isconst_k0_w0", "isconst_k1_w0", "isconst_k2_w0", "isconst_k3_w0", "isconst_k5_w0", "isconst_k1_w1", "isconst_k3_w1", "isconst_k0_w3", "isconst_k3_w4", "isconst_value_kinds"]
 PLAIN = ["attr_class_dyn", "attr_style_dyn", "attr_key_dyn", "attr_ref_dyn", "attr_on_dyn", "attr_nativeon_dyn", "attr_onclick_camel_dyn",
          "attr_onclick_lower_dyn", "attr_onfoo_dyn", "attr_onupdate_dyn", "attr_id_dyn", "attr_id_bool", "attr_id_str", "attr_class_str", "attr_onfoo_bool"]
 DARM = ["darm_normal", "darm_html", "darm_text", "darm_vmodel_plain", "darm_vmodel_strarg", "darm_vmodel_computed", "darm_vmodel_nullarg", "darm_slots_some", "darm_slots_none"]
@@ -33,8 +34,10 @@ UNITS = [
     U("U-isdir", ["directive::is_directive"], ["isdir_spec_plain", "isdir_spec_namespaced"], ["C04"], domain="all ASCII names of length <= 3 x {plain, namespaced}: complete (reads <= 2 bytes)", mem_gb=4, timeout=300),
     U("U-const", ["patch_flags::PatchFlags", "slot_flag::SlotFlag"], ["const_patch_flags"], ["C13"], domain="constants: complete", mem_gb=4, timeout=300),
     U("U-defaults", ["options::Options::default"], ["options_default"], ["C14"], domain="no input: complete", mem_gb=4, timeout=300, assumes=[A_DROP]),
-    U("U-isconst", ["util::is_jsx_attr_value_constant", "util::is_constant"], ISCONST, ["C13"], completeness="bounded",
-      domain="7 leaf kinds x 6 wrappers (array/object/spread), nesting depth <= 2", mem_gb=6, timeout=600, assumes=[A_DROP, A_CLONE]),
+    U("U-isconst", ["util::is_jsx_attr_value_constant", "util::is_constant"], ISCONST_Q, ["C13"], completeness="bounded",
+      domain="leaf kinds {opaque, identifier, undefined, string, call} bare, and in array / object / spread wrappers (subset), nesting depth <= 2", mem_gb=6, timeout=900, assumes=[A_DROP, A_CLONE]),
+    U("U-isconst-more", ["util::is_jsx_attr_value_constant", "util::is_constant"], [h for h in ISCONST if h not in ISCONST_Q], ["C13"], completeness="bounded", tier="thorough",
+      domain="remaining leaf x wrapper combinations, nesting depth <= 2", mem_gb=6, timeout=1200, assumes=[A_DROP, A_CLONE]),
     U("U-tag", ["VueJsxTransformVisitor::transform_tag", "VueJsxTransformVisitor::is_component", "VueJsxTransformVisitor::import_from_vue"],
       TAGS + ["tag_member"], ["C01", "C02", "C03", "C08"], domain="9 tag names x {no pattern, ^x-} x symbolic {unresolved, Fragment imported before, 4 options}", mem_gb=8, timeout=900, assumes=[A_DROP, A_CLONE, A_FMT]),
     U("U-tag-fragment", ["VueJsxTransformVisitor::is_component"], ["tag_fragment_not_component"], ["C02", "C03", "C10"], domain="`Fragment` x symbolic history", mem_gb=8, assumes=[A_DROP, A_FMT]),
@@ -80,12 +83,15 @@ UNITS += [
     U("U-isdc", ["VueJsxTransformVisitor::is_define_component_call", "VueJsxTransformVisitor::visit_mut_import_decl"], ["define_component_identification"] + IMPORTS, ["C20"],
       domain="5 callee shapes x recorded/not; 8 import declaration shapes", mem_gb=8, assumes=[A_DROP, A_CLONE]),
     U("U-inject", ["inject_define_component_option"], INJECT, ["C20"], completeness="bounded", domain="8 option-argument shapes", mem_gb=8, assumes=[A_DROP, A_CLONE]),
-    U("U-rttable", ["resolve_type::infer_runtime_type"], ["rt_keywords", "rt_literals", "rt_structural"] + RTB, ["C17"], completeness="bounded",
-      domain="all keyword kinds of the table, literal kinds, 20 built-in names, fn/array/tuple/paren/union/NonNullable one level", mem_gb=8, timeout=900, assumes=[A_DROP, A_CLONE]),
+    U("U-rttable", ["resolve_type::infer_runtime_type"], ["rt_keywords", "rt_literals"] + RTB[:8], ["C17"], completeness="bounded",
+      domain="all keyword kinds of the table, literal kinds, 8 built-in names", mem_gb=8, timeout=1200, assumes=[A_DROP, A_CLONE]),
+    U("U-rttable-more", ["resolve_type::infer_runtime_type"], ["rt_structural"] + RTB[8:], ["C17"], completeness="bounded", tier="thorough",
+      domain="12 more built-in names, fn/array/tuple/paren/union/NonNullable one level", mem_gb=10, timeout=2400, assumes=[A_DROP, A_CLONE]),
     U("U-rt-bigint", ["resolve_type::infer_runtime_type"], ["rt_bigint_literal"], ["C17"], domain="bigint literal type", mem_gb=8, assumes=[A_DROP]),
 ]
 
-STEP_PLAIN = ["step_ref", "step_class", "step_style", "step_key", "step_on", "step_nativeon", "step_onclick_camel", "step_onclick_lower", "step_onupdate_mv", "step_listener", "step_other",
+STEP_ISCONST_Q = ["isconst_k0_w0", "isconst_k1_w0", "isconst_k2_w0", "isconst_k3_w0", "isconst_k5_w0", "isconst_k1_w1", "isconst_k3_w1", "isconst_k0_w3", "isconst_k3_w4", "isconst_value_kinds"]
+PLAIN = ["step_ref", "step_class", "step_style", "step_key", "step_on", "step_nativeon", "step_onclick_camel", "step_onclick_lower", "step_onupdate_mv", "step_listener", "step_other",
               "step_other_valueless", "step_other_string", "step_class_string", "step_listener_valueless", "step_ref_string"]
 A_EXTRACT = "A-GLUE: the arm bodies / assembly / finalisation of transform_attrs are verified as extracted regions (tools/extract.py, verbatim); that the fold applies the arms to every attribute in order from the declared initial state is checked syntactically by the extractor and, bounded, by the whole-function units of the thorough tier"
 UNITS += [
@@ -96,11 +102,18 @@ UNITS += [
       domain="as U-step-plain with non-empty earlier props / merge arguments / dynamic props (frame: they are kept in place)", mem_gb=12, timeout=900, unwindset={"memcmp.0": 21}, tier="thorough",
       assumes=[A_DROP, A_CLONE, A_TT, A_CONST, A_FMT, A_EXTRACT]),
     U("U-step-spread", ["VueJsxTransformVisitor::transform_attrs[spread arm]", "util::dedupe_props"], ["step_spread_expr", "step_spread_object"], ["C13", "C01"], completeness="bounded",
-      domain="spread arm: {expression, object literal} x symbolic state and options; earlier props list of length <= 1", mem_gb=16, timeout=1200, unwindset={"memcmp.0": 12}, assumes=[A_DROP, A_CLONE, A_FMT, A_EXTRACT]),
+      domain="spread arm: {expression, object literal} x symbolic state and options; earlier props list of length <= 1; dedupe_props replaced by identity (own unit U-dedupe)", mem_gb=24, timeout=1800, tier="thorough", unwindset={"memcmp.0": 12}, assumes=[A_DROP, A_CLONE, A_FMT, A_EXTRACT]),
     U("U-flagfinal", ["VueJsxTransformVisitor::transform_attrs[finalisation]"], ["step_finalize"], ["C13"],
       domain="all 2^7 combinations of the analysis booleans: complete", mem_gb=6, timeout=600, assumes=[A_DROP, A_EXTRACT]),
     U("U-assemble", ["VueJsxTransformVisitor::transform_attrs[props assembly]", "util::dedupe_props"], ["asm_none", "asm_one_prop", "asm_two_props", "asm_lone_spread", "asm_one_merge", "asm_two_merge", "asm_merge_and_props", "asm_two_merge_and_props"], ["C01"],
       completeness="bounded", domain="props list of length 0..2 or a lone spread x merge-argument list of length 0..2 x symbolic options", mem_gb=8, timeout=900, unwindset={"memcmp.0": 12}, assumes=[A_DROP, A_CLONE, A_FMT, A_EXTRACT]),
+    U("U-step-dir", ["VueJsxTransformVisitor::transform_attrs[directive arm]"], ["step_dir_normal", "step_dir_html", "step_dir_text", "step_slots_some", "step_slots_none"], ["C04", "C13", "C03"],
+      domain="directive arm from an arbitrary analysis state: parse results {normal, html, text, v-slots value / none} x symbolic host kind and options; complete over these parse-result kinds",
+      mem_gb=8, timeout=900, unwindset={"memcmp.0": 21}, assumes=[A_DROP, A_CLONE, A_PD, A_FMT, A_EXTRACT]),
+    U("U-step-vmodel", ["VueJsxTransformVisitor::transform_attrs[directive arm, v-model]"], ["step_vmodel_plain", "step_vmodel_computed", "step_vmodel_nullarg"], ["C05", "C13"], tier="thorough",
+      domain="v-model arm: argument {absent, null, computed} x modifiers x symbolic host kind and options", mem_gb=24, timeout=2400, unwindset={"memcmp.0": 21}, assumes=[A_DROP, A_CLONE, A_PD, A_FMT, A_EXTRACT]),
+    U("U-step-on-strict", ["VueJsxTransformVisitor::transform_attrs[plain arm]"], ["step_on_strict"], ["C13"], domain="dynamic `on` attribute, transformOn off, symbolic state", mem_gb=6, timeout=600,
+      unwindset={"memcmp.0": 21}, assumes=[A_DROP, A_CLONE, A_CONST, A_TT, A_FMT, A_EXTRACT]),
     U("L-flags", ["lemma over the contracts of U-step-plain / U-step-spread / U-step-dir / U-flagfinal"], ["flags_lemma"], ["C13"], backend="verus",
       domain="attribute sequences of ANY length (induction): unbounded", assumes=["the abstract step of the directive arms (K_DIR_*, K_VMODEL_*) in the lemma is the contract checked by U-step-dir"]),
 ]
